@@ -93,3 +93,51 @@ example : noFirstLineCrossing 2 2 [0xFD, 0x03] = false := by decide
 example : noFirstLineCrossing 2 2 [0xFD, 0x01, 0x02] = true := by decide
 
 end Rdp.Codec
+
+namespace Rdp.Codec
+open Rdp
+
+/-! ### the uncompressed paths are exact -/
+
+theorem foldl_append_toList {α β} (l : List α) (f : α → Array β) (init : Array β) :
+    (l.foldl (fun acc i => acc ++ f i) init).toList = init.toList ++ l.flatMap (fun i => (f i).toList) := by
+  induction l generalizing init with
+  | nil => simp
+  | cons a l ih => simp only [List.foldl_cons, ih, Array.toList_append, List.flatMap_cons, List.append_assoc]
+
+/-- **Raw 32 bpp is exact.**  An uncompressed 32 bpp bitmap (sent bottom-up) decodes to its
+    rows in top-down order, byte for byte: output row `i` is input row `h-1-i`. -/
+theorem c09_raw32 (d : Array UInt8) (w h : Nat) (hsz : w * h * 4 ≤ d.size) :
+    decompress ⟨w, h, 32, false, d⟩ =
+      .ok ((List.range h).flatMap fun i => (d.extract ((h - i - 1) * w * 4) ((h - i - 1) * w * 4 + w * 4)).toList) := by
+  unfold decompress
+  simp only [if_true, Bool.false_eq_true, if_false]
+  rw [if_neg (by omega)]
+  simp only [raw32, foldl_append_toList]
+  simp
+
+theorem widenInto_eq (acc : Array UInt8) (v : UInt16) : (widenInto acc v).toList = acc.toList ++ widen v := by
+  simp [widenInto, widen]
+
+theorem foldl_widen_toList (l : List UInt16) (init : Array UInt8) :
+    (l.foldl widenInto init).toList = init.toList ++ l.flatMap widen := by
+  induction l generalizing init with
+  | nil => simp
+  | cons a l ih => simp only [List.foldl_cons, ih, widenInto_eq, List.flatMap_cons, List.append_assoc]
+
+/-- **Raw 16 bpp is exact.**  An uncompressed 5-6-5 bitmap decodes to the exactly widened
+    pixels (`c09_widen`) in top-down order: output pixel (i, j) is input pixel (h-1-i, j). -/
+theorem c09_raw16 (d : Array UInt8) (w h : Nat) (hsz : w * h * 2 ≤ d.size) :
+    decompress ⟨w, h, 16, false, d⟩ = .ok ((raw16 d w h).toList.flatMap widen) := by
+  unfold decompress
+  simp only [Bool.false_eq_true, if_false]
+  rw [if_neg (by decide), if_pos True.intro, if_neg (by omega)]
+  unfold rgb565torgb32
+  have hs : (raw16 d w h).size = w * h := by simp [raw16]
+  rw [if_pos (by omega)]
+  congr 1
+  have : (raw16 d w h).extract 0 (w * h) = raw16 d w h := by
+    rw [← hs]; simp
+  rw [this, ← Array.foldl_toList, foldl_widen_toList]
+  simp
+end Rdp.Codec
